@@ -102,7 +102,7 @@ def run(res, f, tier):
     if ok:
         A = anyc[0]
         pass
-        m = re.fullmatch(r"Iter::any\((?:\[Rule\]::iter\(self\.rules\)|into_iter\(self\.rules\)), closure\(([^,]+), rule\.name\)\)", A)
+        m = re.fullmatch(r"Iter::any\((?:\[Rule\]::iter\(self\.rules\)|into_iter\(self\.rules\)), closure\(([^,]+), (rule\.name|rule)\)\)", A)
         ok = bool(m)
         if m:
             clo = m.group(1)
@@ -114,8 +114,11 @@ def run(res, f, tier):
     if not clo:
         ob(False, "C15|with_rule|predicate", "the duplicate test of with_rule could not be located")
     else:
-        cs = closure_with_captures(f, clo, ["name"], ["r"])
-        ob(cs in ([((), "str::eq(r.name, name)")], [((), "str::eq(name, r.name)")]), "C15|with_rule|predicate", "the duplicate test must compare each existing rule's name with the new rule's name: %s" % cs)
+        cap = m.group(2)
+        cs = closure_with_captures(f, clo, ["name" if cap == "rule.name" else "rule"], ["r"])
+        rule_fields = [fl["name"] for fl in f.adts["ruleset::rule::Rule"]["variants"][0]["fields"]]
+        names_ = ["name"] if cap == "rule.name" else ["rule.name", "rule.%d" % rule_fields.index("name")]
+        ob(any(cs in ([((), "str::eq(r.name, %s)" % N_)], [((), "str::eq(%s, r.name)" % N_)]) for N_ in names_), "C15|with_rule|predicate", "the duplicate test must compare each existing rule's name with the new rule's name: %s" % cs)
     with_rules = find1(f, "with_rules", "Builder")
     rows = summ(f, with_rules, ["self", "rules"], opaque=lambda p: p == with_rule)
     SRC = "into_iter(rules)"
@@ -296,7 +299,8 @@ def run(res, f, tier):
        "C15|with_symbol", "with_symbol must (over)write the symbol with BTreeMap::insert semantics: %s" % [r["ret"] for r in rows])
     with_symbols = find1(f, "with_symbols", "Builder")
     rows = summ(f, with_symbols, ["self", "symbols"])
-    ap = [c for r in rows for c in r["calls"] if c[0] == "BTreeMap::append"]
+    # `append(&mut other)` and `extend(iterator)` both insert every new pair over an existing one (later wins)
+    ap = [c for r in rows for c in r["calls"] if c[0] in ("BTreeMap::append", "BTreeMap::extend")]
     ok = len(rows) == 1 and rows[0]["ret"] == "Ok(self)" and len(ap) == 1 and ap[0][1] == "self.symbols.0" and "symbols.0" in ap[0][2]
     first_wins = [c for r in rows for c in r["calls"] if any(x in c[0] for x in ("entry", "or_insert", "try_insert"))]
     ob(ok and not first_wins, "C15|with_symbols", "with_symbols must merge with BTreeMap::append semantics (later registration wins): %s" % ap)
